@@ -10,6 +10,8 @@ from . import core, tlc
 from .tlc import MachineryError
 
 PROPS = ["C%02d" % i for i in range(1, 21)]
+# extensions beyond the listed properties (DESIGN.md section 11); run by ./extras, not registered in MANIFEST.json
+EXTRAS = ["X01", "X02", "X03"]
 
 
 def setup():
@@ -38,7 +40,7 @@ def main():
     a = ap.parse_args()
     if a.setup:
         sys.exit(setup())
-    if a.pid not in PROPS:
+    if a.pid not in PROPS + EXTRAS:
         print("unknown property", a.pid)
         sys.exit(2)
     seed = int(os.environ.get("VERIF_SEED", "0") or 0)
